@@ -10,6 +10,11 @@
 //!   val entries --behaviours b.ndjson --out o.ndjson
 //!       the same for compositions of entry wrappers (VPEntryStacks.tla): the item sequence
 //!       (timestamp | config | (name, call)) seen by a recording EntryWriter, and sample_group().
+//!   val hist    --behaviours b.ndjson --out o.ndjson
+//!       every line {id, wrapper, steps:[{res}], runs} is a history printed by TLC (VPStreamHist.tla): the
+//!       entries are sent one after the other through ONE long-lived merge_globals / merge_global_dimensions /
+//!       ForceFlag wrapper (stream level and format level) whose inner stream / format answers Ok, an I/O
+//!       error or a validation error as scripted; what the inner stream is handed is recorded per step.
 //!   val pairs   --behaviours b.ndjson --out o.ndjson
 //!       every line {id, from, to, time, inverse, mags:[..]} is a convertible unit pair printed by
 //!       TLC (VPUnitPairs.tla); the shapes are built statically (macro table over all pairs):
@@ -151,8 +156,30 @@ trait DynValue {
 }
 trait DynVW {
     fn string(&mut self, s: &str);
-    fn metric(&mut self, obs: &[Observation], unit: Unit, dims: &[(&str, &str)], flags: MetricFlags<'_>);
+    /// `lower` = the lower size-hint bounds the real iterators (observations, dimensions) reported
+    fn metric(&mut self, obs: &[Observation], unit: Unit, dims: &[(&str, &str)], flags: MetricFlags<'_>, lower: (usize, usize));
     fn error(&mut self, e: ValidationError);
+}
+/// presents a collected slice with the (possibly inexact) lower size-hint bound of the iterator it was
+/// collected from, so that the next REAL wrapper sees the hint the real value / wrapper produced -
+/// collecting alone would turn every hint into an exact one
+struct Hinted<I> {
+    inner: I,
+    slack: usize,
+}
+impl<I: ExactSizeIterator> Iterator for Hinted<I> {
+    type Item = I::Item;
+    fn next(&mut self) -> Option<I::Item> {
+        self.inner.next()
+    }
+    fn size_hint(&self) -> (usize, Option<usize>) {
+        let n = self.inner.len();
+        (n.saturating_sub(self.slack), Some(n))
+    }
+}
+fn hinted<I: ExactSizeIterator>(inner: I, lower: usize) -> Hinted<I> {
+    let slack = inner.len().saturating_sub(lower);
+    Hinted { inner, slack }
 }
 struct FromDynVW<'w>(&'w mut dyn DynVW);
 impl ValueWriter for FromDynVW<'_> {
@@ -167,6 +194,9 @@ impl ValueWriter for FromDynVW<'_> {
         flags: MetricFlags<'_>,
     ) {
         // plain loops: `collect` would instantiate Vec's from_iter machinery once per iterator type
+        let distribution = distribution.into_iter();
+        let dimensions = dimensions.into_iter();
+        let lower = (distribution.size_hint().0, dimensions.size_hint().0);
         let mut obs: Vec<Observation> = Vec::new();
         for o in distribution {
             obs.push(o);
@@ -175,7 +205,7 @@ impl ValueWriter for FromDynVW<'_> {
         for d in dimensions {
             dims.push(d);
         }
-        self.0.metric(&obs, unit, &dims, flags)
+        self.0.metric(&obs, unit, &dims, flags, lower)
     }
     fn error(self, error: ValidationError) {
         self.0.error(error)
@@ -186,8 +216,13 @@ impl<W: ValueWriter> DynVW for ToDynVW<W> {
     fn string(&mut self, s: &str) {
         self.0.take().expect("second ValueWriter call").string(s)
     }
-    fn metric(&mut self, obs: &[Observation], unit: Unit, dims: &[(&str, &str)], flags: MetricFlags<'_>) {
-        self.0.take().expect("second ValueWriter call").metric(obs.iter().copied(), unit, dims.iter().copied(), flags)
+    fn metric(&mut self, obs: &[Observation], unit: Unit, dims: &[(&str, &str)], flags: MetricFlags<'_>, lower: (usize, usize)) {
+        self.0.take().expect("second ValueWriter call").metric(
+            hinted(obs.iter().copied(), lower.0),
+            unit,
+            hinted(dims.iter().copied(), lower.1),
+            flags,
+        )
     }
     fn error(&mut self, e: ValidationError) {
         self.0.take().expect("second ValueWriter call").error(e)
@@ -321,6 +356,19 @@ impl Value for Rich {
         )
     }
 }
+/// two own dimensions; observations and dimensions are handed to the writer through filter_map
+/// (size hints with lower bound 0)
+struct RichInexact {
+    u: u64,
+    f: f64,
+}
+impl Value for RichInexact {
+    fn write(&self, writer: impl ValueWriter) {
+        let obs = [Some(Observation::Unsigned(self.u)), Option::None, Some(Observation::Floating(self.f))];
+        let dims = [("b0_k", "b0_v"), ("-", "-"), ("b1_k", "b1_v")];
+        writer.metric(obs.into_iter().flatten().filter(|_| true), Unit::None, dims.into_iter().filter_map(|d| (d.0 != "-").then_some(d)), MetricFlags::empty())
+    }
+}
 struct ErrValue;
 impl Value for ErrValue {
     fn write(&self, writer: impl ValueWriter) {
@@ -411,6 +459,7 @@ fn base_value(b: &str, mi: &[usize]) -> (DynV, Vec<J>) {
         "bad" => (layer(BadAs::<unit::Second>(MAG_U[m(0) % 6], PhantomData)), vec![echo_u(m(0))]),
         "zero" => (layer(ZeroObs(true)), vec![]),
         "zeron" => (layer(ZeroObs(false)), vec![]),
+        "richi" => (layer(RichInexact { u: MAG_U[m(0) % 6], f: MAG_F[m(1) % 6] }), vec![echo_u(m(0)), echo_f(m(1))]),
         _ => panic!("unknown base value {b}"),
     }
 }
@@ -488,15 +537,6 @@ macro_rules! dispatch_subset_pairs {
         }
     };
 }
-macro_rules! dispatch_time_pairs {
-    ($name:ident, $f:ident, $arg:ty, $ret:ty) => {
-        fn $name(from: &str, to: &str, args: $arg) -> Option<$ret> {
-            time_units!(time_rows!($f, from, to, args;));
-            Option::None
-        }
-    };
-}
-
 // dynamic unit layer: WithUnit<Erased<From>, To> around an erased value
 #[inline(never)]
 fn wrap_unit<F: UnitTag + Convert<T> + 'static, T: UnitTag + Send + Sync + 'static>(inner: DynV) -> DynV {
@@ -849,7 +889,7 @@ impl BaseE {
         self.mi.get(field).copied().unwrap_or(0) + slot
     }
 }
-const FIELDS: [&str; 13] = ["str", "u64", "f64", "dur", "distu", "distdur", "mean", "rich", "err", "empty", "bad", "zero", "zeron"];
+const FIELDS: [&str; 14] = ["str", "u64", "f64", "dur", "distu", "distdur", "mean", "rich", "err", "empty", "bad", "zero", "zeron", "richi"];
 impl Entry for BaseE {
     fn write<'a>(&'a self, w: &mut impl EntryWriter<'a>) {
         w.timestamp(SystemTime::UNIX_EPOCH + T1);
@@ -868,6 +908,7 @@ impl Entry for BaseE {
         w.value("bad", &BadAs::<unit::Second>(MAG_U[self.m(10, 0) % 6], PhantomData));
         w.value("zero", &ZeroObs(true));
         w.value("zeron", &ZeroObs(false));
+        w.value("richi", &RichInexact { u: MAG_U[self.m(13, 0) % 6], f: MAG_F[self.m(13, 1) % 6] });
     }
     fn sample_group(&self) -> impl Iterator<Item = SampleGroupElement> {
         [("op".into(), "op_v".into()), ("status".into(), "status_v".into())].into_iter()
@@ -884,6 +925,7 @@ impl BaseE {
             "rich": [echo_u(self.m(7, 0)), echo_f(self.m(7, 1)), echo_f(self.m(7, 2))],
             "bad": [echo_u(self.m(10, 0))],
             "gm": [echo_u(self.mi.get(11).copied().unwrap_or(1))],
+            "richi": [echo_u(self.m(13, 0)), echo_f(self.m(13, 1))],
         })
     }
 }
@@ -1031,6 +1073,166 @@ fn observe_entry(e: &impl Entry) -> J {
     json!({"items": rec.items, "sg": sg})
 }
 
+// ---------------------------------------------------------------------------------------------
+// histories: a sequence of entries through ONE long-lived stream / format wrapper whose inner
+// stream / format answers Ok, an I/O error or a validation error as scripted
+// ---------------------------------------------------------------------------------------------
+struct HistE {
+    mi: Vec<usize>,
+}
+impl HistE {
+    fn m(&self, k: usize) -> usize {
+        self.mi.get(k).copied().unwrap_or(k)
+    }
+    fn echo(&self, g: usize) -> J {
+        json!({
+            "u64": [echo_u(self.m(0))], "f64": [echo_f(self.m(1))],
+            "rich": [echo_u(self.m(2)), echo_f(self.m(3)), echo_f(self.m(4))],
+            "richi": [echo_u(self.m(5)), echo_f(self.m(6))],
+            "gm": [echo_u(g)],
+        })
+    }
+}
+impl Entry for HistE {
+    fn write<'a>(&'a self, w: &mut impl EntryWriter<'a>) {
+        w.timestamp(SystemTime::UNIX_EPOCH + T1);
+        w.value("u64", &MAG_U[self.m(0) % 6]);
+        w.value("f64", &MAG_F[self.m(1) % 6]);
+        w.value("rich", &Rich { u: MAG_U[self.m(2) % 6], f: MAG_F[self.m(3) % 6], r: MAG_F[self.m(4) % 6] });
+        w.value("richi", &RichInexact { u: MAG_U[self.m(5) % 6], f: MAG_F[self.m(6) % 6] });
+        w.value("str", "text");
+    }
+    fn sample_group(&self) -> impl Iterator<Item = SampleGroupElement> {
+        [("op".into(), "op_v".into())].into_iter()
+    }
+}
+/// scripted inner stream / format: records what it is handed, answers as scripted
+#[derive(Default)]
+struct Script {
+    results: std::collections::VecDeque<String>,
+    seen: Vec<J>,
+}
+type SharedScript = std::rc::Rc<std::cell::RefCell<Script>>;
+struct ScriptStream(SharedScript);
+impl ScriptStream {
+    fn take(&mut self, entry: &impl Entry) -> Result<(), IoStreamError> {
+        let o = observe_entry(entry);
+        let mut s = self.0.borrow_mut();
+        s.seen.push(o);
+        match s.results.pop_front().as_deref() {
+            Some("io") => Err(IoStreamError::Io(std::io::Error::other("scripted i/o error"))),
+            Some("val") => Err(IoStreamError::Validation(ValidationError::invalid("scripted validation error"))),
+            _ => Ok(()),
+        }
+    }
+}
+impl EntryIoStream for ScriptStream {
+    fn next(&mut self, entry: &impl Entry) -> Result<(), IoStreamError> {
+        self.take(entry)
+    }
+    fn flush(&mut self) -> std::io::Result<()> {
+        Ok(())
+    }
+}
+struct ScriptFormat(ScriptStream);
+impl Format for ScriptFormat {
+    fn format(&mut self, entry: &impl Entry, _output: &mut impl std::io::Write) -> Result<(), IoStreamError> {
+        self.0.take(entry)
+    }
+}
+fn res_name(r: &Result<(), IoStreamError>) -> &'static str {
+    match r {
+        Ok(()) => "ok",
+        Err(IoStreamError::Io(_)) => "io",
+        Err(IoStreamError::Validation(_)) => "val",
+    }
+}
+/// send the entries of one history through the long-lived wrapper; one observation per step
+fn drive(script: &SharedScript, entries: &[(HistE, usize)], mut send: impl FnMut(&HistE) -> Result<(), IoStreamError>) -> Vec<J> {
+    let mut out = vec![];
+    for (e, g) in entries {
+        let before = script.borrow().seen.len();
+        let r = send(e);
+        let mut s = script.borrow_mut();
+        let mut o = if s.seen.len() == before + 1 {
+            s.seen.pop().unwrap()
+        } else {
+            json!({"inner_calls": s.seen.len() - before})
+        };
+        s.seen.clear();
+        o["res"] = json!(res_name(&r));
+        o["mags"] = e.echo(*g);
+        out.push(o);
+    }
+    out
+}
+fn run_history(w: &J, results: &[String], entries: &[(HistE, usize)], g: &ErasedE) -> Vec<J> {
+    let script: SharedScript = Default::default();
+    script.borrow_mut().results = results.iter().cloned().collect();
+    let inner = ScriptStream(script.clone());
+    let ds: Vec<(String, String)> = strs(&w["ds"]).iter().map(|d| dim_pair(d)).collect();
+    let deny: HashSet<CowStr> = strs(&w["deny"]).into_iter().map(CowStr::from).collect();
+    let dims = ds.iter().map(|(k, v)| (CowStr::from(k.clone()), CowStr::from(v.clone())));
+    let sink = &mut std::io::sink();
+    match (w["w"].as_str().unwrap(), ds.len()) {
+        ("GDimsStream", 1) => {
+            let mut s = inner.merge_global_dimensions::<1>(dims.collect(), Some(deny));
+            drive(&script, entries, |e| s.next(e))
+        }
+        ("GDimsStream", _) => {
+            let mut s = inner.merge_global_dimensions::<2>(dims.collect(), Some(deny));
+            drive(&script, entries, |e| s.next(e))
+        }
+        ("GDimsFormat", 1) => {
+            let mut s = ScriptFormat(inner).merge_global_dimensions::<1>(dims.collect(), Some(deny));
+            drive(&script, entries, |e| s.format(e, sink))
+        }
+        ("GDimsFormat", _) => {
+            let mut s = ScriptFormat(inner).merge_global_dimensions::<2>(dims.collect(), Some(deny));
+            drive(&script, entries, |e| s.format(e, sink))
+        }
+        ("MergeStream", _) => {
+            let mut s = inner.merge_globals(g.clone());
+            drive(&script, entries, |e| s.next(e))
+        }
+        ("MergeFormat", _) => {
+            let mut s = ScriptFormat(inner).merge_globals(g.clone());
+            drive(&script, entries, |e| s.format(e, sink))
+        }
+        ("FlagStream", _) => {
+            let mut s = ForceFlag::<_, FlagA>::from(inner);
+            drive(&script, entries, |e| s.next(e))
+        }
+        (other, _) => panic!("unknown stream wrapper {other}"),
+    }
+}
+fn cmd_hist(a: &HashMap<String, String>) {
+    let behaviours = util::read_ndjson(util::arg_str(a, "behaviours", ""));
+    let mut out = std::io::BufWriter::new(std::fs::File::create(util::arg_str(a, "out", "")).unwrap());
+    for b in behaviours {
+        let results: Vec<String> = b["steps"].as_array().unwrap().iter().map(|s| s["res"].as_str().unwrap().to_string()).collect();
+        let mut runs = vec![];
+        for run in b["runs"].as_array().unwrap() {
+            let mi: Vec<usize> = run.as_array().unwrap().iter().map(|x| x.as_u64().unwrap() as usize).collect();
+            let r = util::catch(|| {
+                let gm = mi.get(11).copied().unwrap_or(1);
+                let g = layer_e(GlobalsE(gm));
+                // a different assignment of magnitudes for every step of the history
+                let entries: Vec<(HistE, usize)> =
+                    (0..results.len()).map(|k| (HistE { mi: mi.iter().map(|m| m + k).collect() }, gm % 6)).collect();
+                json!({"steps": run_history(&b["wrapper"], &results, &entries, &g)})
+            });
+            runs.push(match r {
+                Ok(j) => j,
+                Err(p) => json!({"panic": p}),
+            });
+        }
+        serde_json::to_writer(&mut out, &json!({"id": b["id"], "runs": runs})).unwrap();
+        out.write_all(b"\n").unwrap();
+    }
+    out.flush().unwrap();
+}
+
 fn cmd_entries(a: &HashMap<String, String>) {
     let behaviours = util::read_ndjson(util::arg_str(a, "behaviours", ""));
     let mut out = std::io::BufWriter::new(std::fs::File::create(util::arg_str(a, "out", "")).unwrap());
@@ -1097,6 +1299,16 @@ fn shape_dyn(out: &mut Vec<J>, name: &'static str, spec: &'static str, i: usize,
     });
 }
 
+/// the outcome of Mean::try_new / try_extend / record_value as a value: the mean, or the validation error
+struct MeanOrErr<U>(Result<Mean<U>, ValidationError>);
+impl<U: UnitTag> Value for MeanOrErr<U> {
+    fn write(&self, writer: impl ValueWriter) {
+        match &self.0 {
+            Ok(m) => m.write(writer),
+            Err(e) => writer.error(e.clone()),
+        }
+    }
+}
 /// promises unit `U` and writes it: one observation of each kind in a single call
 struct Tri<U>(u64, f64, f64, PhantomData<fn() -> U>);
 impl<U: UnitTag> Value for Tri<U> {
@@ -1151,6 +1363,12 @@ fn run_full<F: UnitTag + Convert<T>, T: UnitTag>(mags: &[usize]) -> Vec<J> {
         shape(&mut out, "box_arc", "u0", i, &a);
         let a: WithUnit<Mean<F>, T> = mean_of::<F>(f).into();
         shape(&mut out, "mean", "f0", i, &a);
+        // a mean over converted inputs that are (partly) Repeated: Mean<T> <- WithUnit<Tri<F>,T>, WithUnit<Mean<F>,T>
+        let tri: WithUnit<Tri<F>, T> = Tri::<F>(u, MAG_F[(i + 1) % 6], MAG_F[(i + 2) % 6], PhantomData).into();
+        let mean: WithUnit<Mean<F>, T> = mean_of::<F>(MAG_F[(i + 3) % 6]).into();
+        let mut m = Mean::<T>::default();
+        let r = m.record_value(&tri).and_then(|()| m.record_value(&mean));
+        shape(&mut out, "mean_conv", "u0f1f2f3", i, &MeanOrErr(r.map(|()| m)));
     }
     let a: WithUnit<ZeroAs<F>, T> = ZeroAs::<F>(PhantomData).into();
     shape(&mut out, "zero", "", 0, &a);
@@ -1160,34 +1378,59 @@ fn run_full<F: UnitTag + Convert<T>, T: UnitTag>(mags: &[usize]) -> Vec<J> {
     shape(&mut out, "mismatch", "", 0, &a);
     let a: WithUnit<Distribution<BadAs<F>>, T> = Distribution::<BadAs<F>>::from_iter([BadAs::<F>(7, PhantomData)]).into();
     shape(&mut out, "dist_mismatch", "", 0, &a);
+    let a: WithUnit<Distribution<StrAs<F>>, T> = Distribution::<StrAs<F>>::from_iter([StrAs::<F>(PhantomData), StrAs::<F>(PhantomData)]).into();
+    shape(&mut out, "dist_str_unit", "", 0, &a);
     out
 }
 dispatch_subset_pairs!(run_full_by_name, run_full, &[usize], Vec<J>; Kilobyte);
 
 /// Duration (promises Milliseconds) declared/converted to `F`, then to `T`
-#[inline(never)]
-fn run_time<F: UnitTag + Convert<T>, T: UnitTag>(mags: &[usize]) -> Vec<J>
-where
-    <Duration as MetricValue>::Unit: Convert<F>,
-{
-    let mut out = vec![];
-    for &i in mags {
-        let d = mag_dur(i);
-        let a: WithUnit<WithUnit<Duration, F>, T> = WithUnit::<Duration, F>::from(d).into();
-        shape(&mut out, "dur", "d0", i, &a);
-        let ds: Distribution<WithUnit<Duration, F>> = [d, mag_dur(i + 1)].into_iter().map(WithUnit::<Duration, F>::from).collect();
-        let a: WithUnit<_, T> = ds.into();
-        shape(&mut out, "dist_dur", "d0d1", i, &a);
-        let a: WithUnit<Option<WithUnit<Duration, F>>, T> = Some(WithUnit::<Duration, F>::from(d)).into();
-        shape(&mut out, "opt_dur", "d0", i, &a);
-    }
-    out
+// Instantiated with CONCRETE unit types (no generic bounds on associated types), so that the driver still
+// builds - and the difference is reported at run time - if Duration or WithUnit promised another unit.
+macro_rules! time_shapes {
+    ($F:ty, $T:ty, $mags:expr) => {{
+        let mut out = vec![];
+        for &i in $mags {
+            let d = mag_dur(i);
+            let a: WithUnit<WithUnit<Duration, $F>, $T> = WithUnit::<Duration, $F>::from(d).into();
+            shape(&mut out, "dur", "d0", i, &a);
+            let ds: Distribution<WithUnit<Duration, $F>> = [d, mag_dur(i + 1)].into_iter().map(WithUnit::<Duration, $F>::from).collect();
+            let a: WithUnit<_, $T> = ds.into();
+            shape(&mut out, "dist_dur", "d0d1", i, &a);
+            let a: WithUnit<Option<WithUnit<Duration, $F>>, $T> = Some(WithUnit::<Duration, $F>::from(d)).into();
+            shape(&mut out, "opt_dur", "d0", i, &a);
+            // unit-aware layers over an already converted value: Distribution / Mean of WithUnit<Duration, F>
+            let ds: Distribution<WithUnit<WithUnit<Duration, $F>, $T>> =
+                [d, mag_dur(i + 1)].into_iter().map(|x| WithUnit::<Duration, $F>::from(x).into()).collect();
+            shape(&mut out, "dist_dur", "d0d1", i, &ds);
+            shape(&mut out, "mean_dur", "d0d1", i, &MeanOrErr(ds.try_to_mean()));
+        }
+        out
+    }};
 }
-dispatch_time_pairs!(run_time_by_name, run_time, &[usize], Vec<J>);
+macro_rules! row_m {
+    ($m:ident, $from:expr, $to:expr, $args:expr; $a:ident; $($b:ident)*) => {
+        if $from == stringify!($a) {
+            $( if $to == stringify!($b) { return Some($m!(unit::$a, unit::$b, $args)); } )*
+        }
+    };
+}
+macro_rules! time_rows_m {
+    ($m:ident, $from:expr, $to:expr, $args:expr; $($a:ident)*) => {
+        $( time_units!(row_m!($m, $from, $to, $args; $a;)); )*
+    };
+}
+fn run_time_by_name(from: &str, to: &str, args: &[usize]) -> Option<Vec<J>> {
+    time_units!(time_rows_m!(time_shapes, from, to, args;));
+    Option::None
+}
+
 
 /// from -> to -> from
 #[inline(never)]
-fn run_rt<F: UnitTag + Convert<T>, T: UnitTag + Convert<F>>(mags: &[usize]) -> Vec<J> {
+// (F: Convert<F> is only needed if WithUnit<_, T> promised its input's unit instead of T; it holds for every
+// family pair and keeps the driver building in that case, so that the difference shows at run time)
+fn run_rt<F: UnitTag + Convert<T> + Convert<F>, T: UnitTag + Convert<F>>(mags: &[usize]) -> Vec<J> {
     let mut out = vec![];
     for &i in mags {
         let t = Tri::<F>(MAG_U[i % 6], MAG_F[(i + 1) % 6], MAG_F[(i + 2) % 6], PhantomData);
@@ -1233,6 +1476,16 @@ impl<P> Value for Writes<P> {
     }
 }
 impl<P: UnitTag> MetricValue for Writes<P> {
+    type Unit = P;
+}
+/// promises unit `P`; writes one Repeated { total, occurrences } under `unit`
+struct WritesR<P>(f64, u64, Unit, PhantomData<fn() -> P>);
+impl<P> Value for WritesR<P> {
+    fn write(&self, writer: impl ValueWriter) {
+        writer.metric([Observation::Repeated { total: self.0, occurrences: self.1 }], self.2, [], MetricFlags::empty())
+    }
+}
+impl<P: UnitTag> MetricValue for WritesR<P> {
     type Unit = P;
 }
 macro_rules! unit_row {
@@ -1288,6 +1541,28 @@ fn run_collect<P: UnitTag + 'static>(args: (Unit, usize)) -> Vec<J> {
         record_value(&Distribution::<Writes<P>>::from_iter([Writes::<P>(Option::None, P::UNIT, PhantomData), Writes::<P>(Some(m1), P::UNIT, PhantomData)]))
     }));
     push("dist_string", vec![], util::catch(|| record_value(&Distribution::<StrAs<P>>::from_iter([StrAs::<P>(PhantomData)]))));
+    // a single member
+    push("dist1", vec![json!({"t":"U","v":m1})], util::catch(|| {
+        record_value(&Distribution::<Writes<P>>::from_iter([Writes::<P>(Some(m1), wrote, PhantomData)]))
+    }));
+    // members that are Repeated (3 and 2 occurrences): a distribution hands them on, a mean sums totals and occurrences
+    let (r1, r2) = (MAG_F[(i + 2) % 6], MAG_F[(i + 3) % 6]);
+    let rmags = || vec![json!({"t":"F","v":r1}), json!({"t":"F","v":r2})];
+    let relems = || [WritesR::<P>(r1, 3, wrote, PhantomData), WritesR::<P>(r2, 2, wrote, PhantomData)];
+    push("dist_rep", rmags(), util::catch(|| record_value(&Distribution::<WritesR<P>>::from_iter(relems()))));
+    push("mean_rep", rmags(), util::catch(|| result_calls(Mean::<P>::try_new(&relems()))));
+    push("mean_rep", rmags(), util::catch(|| result_calls(Distribution::<WritesR<P>>::from_iter(relems()).try_to_mean())));
+    push("mean_rep", rmags(), util::catch(|| {
+        let mut m = Mean::<P>::default();
+        let r = m.try_extend(&relems());
+        result_calls(r.map(|()| m))
+    }));
+    push("mean_rep", rmags(), util::catch(|| {
+        let mut m = Mean::<P>::default();
+        let e = relems();
+        let r = m.record_value(&e[0]).and_then(|()| m.record_value(&e[1]));
+        result_calls(r.map(|()| m))
+    }));
     out
 }
 macro_rules! unit_fn_row {
@@ -1408,8 +1683,9 @@ fn main() {
         "pairs" => cmd_pairs(&a),
         "attrs" => cmd_attrs(&a),
         "collect" => cmd_collect(&a),
+        "hist" => cmd_hist(&a),
         _ => {
-            eprintln!("usage: val values|entries|pairs|collect|attrs ...");
+            eprintln!("usage: val values|entries|hist|pairs|collect|attrs ...");
             std::process::exit(2);
         }
     }
